@@ -124,6 +124,23 @@ let run ~tier ~seed ~only acc =
       end;
       incr idx
     done) bases;
+  (* files barely longer than a trailer: 512 .. 540 bytes, a valid magic of either version at the end, and an index
+     offset pointing inside, at the end, just past the end (the guard page) or far away.  Below 525 (v2) / 528 (v1)
+     bytes no index block fits: every such file must be refused without a read outside it *)
+  for n = 512 to 540 do
+    List.iter (fun (mname, magic) ->
+      List.iter (fun off ->
+        if want () then begin
+          let st = case_rng ~seed ~engine ~index:!idx in
+          let body = if rbool st then String.make n '\000' else rbytes st n in
+          let s = set_le (set_le body (n - 4) 4 magic) (n - 512) 8 off in
+          check acc ~klass:"tiny_file" s (lazy (JO [ "file_len", JI n; "magic", JS mname; "index_block_offset", JS (Printf.sprintf "%Lu" off) ]))
+        end;
+        incr idx)
+        [ 0L; 1L; 12L; 13L; 16L; Int64.of_int (n - 512); Int64.of_int n; Int64.of_int (n + 1); Int64.of_int (n + 100); 4000L;
+          0x100000000L; Int64.min_int; -1L; -13L; -16L; -512L; -525L; -528L ])
+      [ ("v2", 0x4D54424CL); ("v1", 0x77846676L) ]
+  done;
   (* random bytes *)
   let nr = if tier = "thorough" then 1000 else 40 in
   for _ = 1 to nr do
